@@ -621,3 +621,75 @@ def sm9(P, C):
                  "the allocator is asked for `%s` objects instead of the n the caller named: the size model counts n*sizeof(T)" % f.render(arg)[:60])
     if n == 0:
         raise core.AnalysisBroken("SM-9: the allocate / deallocate helpers were not found")
+
+
+def sm10(P, C):
+    """SM-10: what the reader stores for an auxiliary key comes out of a buffer of fixed size."""
+    C.rule("SM-10", "the model reserves FLEN_KEYWORD + FLEN_VALUE characters per auxiliary key. That bounds what the reader requests only as long "
+           "as every string it stores is copied out of a local character array of constant extent (the buffers `fits_read_keyn` fills, or "
+           "one the reader fills itself from them): the source of each copy into `aux[i][k]` is such an array, directly or through a pointer "
+           "local all of whose definitions are such arrays. A value assembled elsewhere (the CONTINUE convention: `fits_read_key_longstr`) "
+           "has no such bound", floor=2)
+    f = [g for g in P.fns("read_fits_core") if g.cls == ts.CLS][0]
+    arrays = {}
+    for x in f.walk():
+        if f.k(x) == "DeclStmt":
+            for d in f.nodes[x]["decls"]:
+                m = re.match(r"^(const )?(unsigned |signed )?char ?\[(\d+)\]$", d.get("ctype", d.get("type", "")))
+                if d.get("dk") == "Var" and m:
+                    arrays[d["id"]] = int(m.group(3))
+
+    def root(e, depth=0):
+        """ids of the local arrays an address expression may point into, or None when something else is possible"""
+        e = f.strip(e)
+        n = f.nodes[e]
+        if n["k"] == "BinaryOperator" and n.get("op") in ("+", "-"):
+            return root(n["ch"][0], depth)
+        if n["k"] == "UnaryOperator" and n.get("op") == "&":
+            s = f.strip(n["ch"][0])
+            if f.k(s) == "ArraySubscriptExpr":
+                return root(f.nodes[s]["ch"][0], depth)
+            return None
+        if n["k"] == "ConditionalOperator" and len(f.ch(e)) == 3:
+            a, b = root(f.ch(e)[1], depth), root(f.ch(e)[2], depth)
+            return None if a is None or b is None else a | b
+        if n["k"] == "DeclRefExpr" and n["decl"].get("kind") == "Var":
+            vid = n["decl"].get("id")
+            if vid in arrays:
+                return {vid}
+            if depth > 3:
+                return None
+            defs = [d["init"] for x in f.walk() if f.k(x) == "DeclStmt" for d in f.nodes[x]["decls"] if d.get("id") == vid and d.get("init", -1) >= 0]
+            defs += [f.nodes[x]["ch"][1] for x in f.walk() if f.k(x) == "BinaryOperator" and f.nodes[x].get("op") == "=" and
+                     f.k(f.strip(f.nodes[x]["ch"][0])) == "DeclRefExpr" and f.nodes[f.strip(f.nodes[x]["ch"][0])]["decl"].get("id") == vid]
+            taken = [x for x in f.walk() if f.k(x) == "UnaryOperator" and f.nodes[x].get("op") == "&" and
+                     f.k(f.strip(f.nodes[x]["ch"][0])) == "DeclRefExpr" and f.nodes[f.strip(f.nodes[x]["ch"][0])]["decl"].get("id") == vid]
+            if not defs or taken or "*" not in n["decl"].get("type", n.get("t", "")):
+                return None
+            out = set()
+            for d in defs:
+                r = root(d, depth + 1)
+                if r is None:
+                    return None
+                out |= r
+            return out
+        return None
+    n_ = 0
+    for i, cal in f.calls():
+        if not cal or cal["name"] not in ("copy", "copy_n", "memcpy", "strcpy", "strncpy", "memmove"):
+            continue
+        a = f.args(i)
+        dst = a[2] if cal["name"] == "copy" and len(a) == 3 else (a[2] if cal["name"] == "copy_n" and len(a) == 3 else (a[0] if a else -1))
+        src = a[0] if cal["name"] in ("copy", "copy_n") else (a[1] if len(a) > 1 else -1)
+        if dst < 0 or src < 0:
+            continue
+        r = ts.root_member(f, dst)
+        if not r or r[0] != "aux":
+            continue
+        rs = root(src)
+        n_ += 1
+        C.ob("SM-10", "read_fits_core", "source-of:%s" % f.render(dst).replace("this->", ""), rs is not None, f.loc(i),
+             "copied out of %s" % (", ".join("%s[%d]" % (f.var_name(v), arrays[v]) for v in sorted(rs)) if rs is not None else
+                                   "%s, which is not (only) a local character array of constant extent" % f.render(src)))
+    if n_ < 2:
+        raise core.AnalysisBroken("SM-10: the copies of key and value into aux[i][..] were not found (%d)" % n_)
